@@ -153,6 +153,6 @@ Spec == Init /\ [][Next]_vars
 
 AtEnd == l = NRec + 1
 Brief == IF AtEnd THEN [l |-> l, bad |-> mism, nsteps |-> nsteps] ELSE [l |-> l]
-CONF == AtEnd => mism = {}
+CONF == AtEnd => NoneFor(mism, "CONF")
 Report == AtEnd => PrintT(<<"SESSCONF-REPORT", nsteps, Cardinality(mism)>>)
 ====================================================================================
